@@ -46,15 +46,17 @@ theorem no_past_load {s : St} (h : Inv s) (uid : String) (owner : Option Nat) (m
   | some e =>
     rw [he] at hok
     simp only [] at hok ⊢
+    have hu : uid ≠ "" := injectAs_ok_ne hok
     have hown : ∀ old, s.find uid = some old → old.owner = e := by
       intro old hf
       unfold injectAs at hok
       rw [hf] at hok
-      simp only [Bool.not_true, Bool.false_eq_true, if_false] at hok
+      have hue : (uid == "") = false := by simpa using hu
+      simp only [hue, Bool.not_true, Bool.or_false, Bool.false_eq_true, if_false] at hok
       by_cases ho : old.owner = e
       · exact ho
       · rw [if_pos ho] at hok; cases hok
-    obtain ⟨_, t', hf', _, _, _, hocc, _⟩ := injectAs_find h (ms := ms) (dur := dur) hs (effOwner_known he) hown
+    obtain ⟨_, t', hf', _, _, _, hocc, _⟩ := injectAs_find h (ms := ms) (dur := dur) hs (effOwner_known he) hown hu
     refine ⟨t', hf', hocc, by rw [hocc]; exact dropWhile_eq_filter_of_sorted _ _ hs, ?_⟩
     intro o ho
     rw [hocc, dropWhile_eq_filter_of_sorted _ _ hs, List.mem_filter] at ho
